@@ -157,7 +157,9 @@ def dump(cs):
 # a grammar of "difficult" caption text, shared by the text-fidelity checks (C03, C04, C08, C20)
 
 WORDS = ["Hello", "world", "R&D", "AT&T", "x<y", "a>b", "1", "12", "2024", "it's", '"q"', "ok.", "émigré", "—", "100%", "a;b", "#1",
-         "🎉", "𝄞", "野家", "Ünï", "ß", "…", "naïve", "Q&A", "e=mc²", "C:\\dir", "50/", "car", "climb", "über"]
+         "🎉", "𝄞", "野家", "Ünï", "ß", "…", "naïve", "Q&A", "e=mc²", "C:\\dir", "50/", "car", "climb", "über",
+         # text that is not in Unicode normalisation form C (decomposed accents, singleton decompositions)
+         "cafe\u0301", "man\u0303ana", "10\u212b", "5\u2126", "\uf900", "\ufb01n"]
 METAS = ["&", "<", ">", "&amp;", "&lt;", "&gt;", "&quot;", "&apos;", "&nbsp;", "&#39;", "&#x27;", "&#60;", "&copy;", "&amp;lt;", "&amp;amp;",
          "&gt", "&;", "-->", "->", "--", "]]>", "<![CDATA[", "<!--", "{1}{2}", "{", "}", "\\N", "%s", "{0}", "WEBVTT", "<sami>"]
 TAGS = ["<i>", "</i>", "<b>", "<u>", "<c.yellow>", "<v Bob>", "<v.a.b Bob>", "<00:01.000>", "<br>", "<br/>", "<p>", "</span>", "<span>",
